@@ -23,7 +23,8 @@ Mode  == IOEnv.ATTSEC_MODE
 NC    == IF IOEnv.ATTSEC_NC = "1" THEN 1 ELSE IF IOEnv.ATTSEC_NC = "2" THEN 2 ELSE 3
 
 CONSTANTS Depth,        \* operations after the prefix (the empty prefix gets Depth, the others Depth - 1 when > 1)
-          Scenarios     \* TRUE: start from every scenario prefix; FALSE: only from the empty one
+          Scenarios     \* 0: start from the empty prefix only; 1: the scenario prefixes for the exhaustive
+                        \* enumeration; 2: all scenario prefixes (random simulation)
 
 VARIABLES st,     \* [sec, mtu, vals, cccd, wq, pend, await]
           hist,   \* operations so far (prefix included)
@@ -176,7 +177,7 @@ IndicateAll == LET ns == SeqOfSet({sr \in Serials : CharRec(sr).indicate}) IN
 Unenc == {<<FALSE, 0>>, <<FALSE, 1>>}
 Prefixes ==
     CASE Mode = "C05" ->
-            IF ~Scenarios THEN {SetVals}
+            IF Scenarios = 0 THEN {SetVals}
             ELSE {SetVals}
                  \cup {SetVals \o <<SecOp(1, x[1], x[2])>> : x \in SecStates}
                  \* values written, subscriptions made, notifications requested on an encrypted link that then loses encryption
@@ -186,7 +187,8 @@ Prefixes ==
                  \* writes prepared on an unencrypted link
                  \cup {SetVals \o <<SecOp(1, x[1], x[2])>> \o PrepareAll(1, 1) : x \in Unenc}
       [] Mode = "C10" ->
-            IF ~Scenarios THEN {<<>>}
+            IF Scenarios = 0 THEN {<<>>}
+            ELSE IF Scenarios = 1 THEN {<<>>, SubscribeAll(1)}
             ELSE {<<>>, SubscribeAll(1), SubscribeAll(1) \o SubscribeAll(2) \o <<SecOp(1, TRUE, 1)>>}
       [] OTHER -> {<<>>}
 
